@@ -69,7 +69,7 @@ func viaRegister(f func() registerer) func() []svc {
 
 func serverTable() []serverEntry {
 	return []serverEntry{
-		{"accesspb.ModelServer", viaRegister(func() registerer { return accesspb.NewModelServer(accesspb.NewModel()) })},
+		{"accesspb.ModelServer", func() []svc { return []svc{{&traits.AccessApi_ServiceDesc, accesspb.NewModelServer(accesspb.NewModel())}} }},
 		{"airqualitysensorpb.ModelServer", viaRegister(func() registerer { return airqualitysensorpb.NewModelServer(airqualitysensorpb.NewModel()) })},
 		{"airtemperaturepb.ModelServer", viaRegister(func() registerer { return airtemperaturepb.NewModelServer(airtemperaturepb.NewModel()) })},
 		{"airtemperaturepb.MemoryDevice", viaRegister(func() registerer { return airtemperaturepb.NewMemoryDevice() })},
